@@ -26,6 +26,9 @@ ON_MISS = {
     'tuple': lambda k: ('m', k),
     'nonev': lambda k: None,
     'ident': lambda k: k,
+    # re-entrant loaders: they store into the very cache that is looking the key up, before returning
+    'prefetch_self': lambda k: ('m', k),
+    'prefetch_other': lambda k: ('m', k),
 }
 
 
@@ -38,9 +41,11 @@ class Ref:
         self.evictions = 0
         self.hit_then_evict = False
         self._hit_seen = False
+        self.reentrant = None
 
     def clone(self):
         r = Ref(self.kind, self.max, None)
+        r.reentrant = None
         r.od = collections.OrderedDict(self.od)
         return r
 
@@ -65,6 +70,10 @@ class Ref:
         if self.on_miss is None:
             raise KeyError(k)
         self.miss_calls.append(k)
+        if self.reentrant == 'prefetch_self':
+            self.set(k, ('pre', k))
+        elif self.reentrant == 'prefetch_other':
+            self.set(K(1), ('pre', k))
         v = self.on_miss(k)
         self.set(k, v)
         return v
@@ -98,8 +107,11 @@ def strat(tier):
     @st.composite
     def case(draw):
         if tier == 'quick':
+            # mostly tiny caches; sometimes one beyond CPython's small-int cache (257+) and the default size (128)
             max_size = draw(st.integers(1, 6))
-            nops = 30
+            if draw(st.integers(0, 11)) == 0:
+                max_size = draw(st.sampled_from([128, 257, 300]))
+            nops = 30 if max_size <= 6 else 15
         else:
             max_size = draw(st.one_of(st.integers(1, 6), st.integers(7, 40)))
             nops = 40 if max_size <= 6 else 80
@@ -125,12 +137,13 @@ def strat(tier):
             st.tuples(st.just('copy'), u),
             st.tuples(st.just('contains'), u, ki),
             st.tuples(st.just('iterate'), u),
+            st.tuples(st.just('fill'), u, ki),
         ).map(list)
         return {
             'sub': 'cache',
             'cls': draw(st.sampled_from(['LRI', 'LRU', 'LRU'])),
             'max_size': max_size,
-            'on_miss': draw(st.sampled_from(['none', 'none', 'tuple', 'nonev', 'ident'])),
+            'on_miss': draw(st.sampled_from(['none', 'none', 'tuple', 'nonev', 'ident', 'prefetch_self', 'prefetch_other'])),
             'init': draw(st.one_of(st.none(), st.tuples(st.sampled_from(['dict', 'pairs']), pairs).map(list))),
             'ops': draw(st.lists(op, min_size=draw(st.sampled_from([0, 0, 8, 15])), max_size=nops)),
             'repeat': draw(st.sampled_from(REPEATS)),
@@ -279,12 +292,21 @@ def run(case):
 
         def on_miss(k):
             calls.append(k)
+            tgt = holder['target']
+            if case['on_miss'] == 'prefetch_self':
+                tgt[k] = ('pre', k)
+            elif case['on_miss'] == 'prefetch_other':
+                tgt[K(1)] = ('pre', k)
             return base_miss(k)
         return on_miss
+
+    holder = {'target': None}
 
     calls0 = []
     om = mk_on_miss(calls0)
     ref = Ref(case['cls'], max_size, base_miss)
+    if case['on_miss'].startswith('prefetch'):
+        ref.reentrant = case['on_miss']
     init = case.get('init')
     try:
         if init is None:
@@ -305,6 +327,7 @@ def run(case):
         name = op[0]
         u = univ[op[1] % len(univ)]
         c, ref, calls = u
+        holder['target'] = c
         where = 'step %d %r on %s(max_size=%d, on_miss=%s)' % (step, op, case['cls'], max_size, case['on_miss'])
         exp = ('ok', None)
         if name == 'set':
@@ -384,6 +407,16 @@ def run(case):
         elif name == 'clear':
             got = _call(c.clear)
             ref.od.clear()
+        elif name == 'fill':
+            # assign every key of the pool once (more keys than max_size: forces max_size+ insertions and evictions)
+            got = ('ok', None)
+            for i in range(nkeys):
+                kk = K((op[2] + i) % nkeys)
+                r1 = _call(c.__setitem__, kk, i)
+                ref.set(kk, i)
+                if r1 != ('ok', None):
+                    got = r1
+                    break
         elif name == 'contains':
             k = K(op[2] % nkeys)
             got = _call(lambda: k in c)
@@ -403,6 +436,7 @@ def run(case):
             cref.on_miss = None
             if cp.on_miss is not None:
                 cref.on_miss = base_miss
+                cref.reentrant = ref.reentrant
             cref.hit, cref.miss, cref.soft = cp.hit_count, cp.miss_count, cp.soft_miss_count
             if not (cref.soft <= cref.miss):
                 return out.fail('c02.counters', '%s: copy starts with soft_miss_count %d > miss_count %d' % (where, cref.soft, cref.miss))
@@ -448,6 +482,8 @@ def run(case):
         out.label('copies')
     if max_size > 6:
         out.label('max_size>6')
+    if max_size >= 257:
+        out.label('max_size>=257')
     if case.get('repeat', 1) > 1:
         out.label('long_history')
     return out
